@@ -1,7 +1,7 @@
 (** C03: access lists.  Only statements here; proofs live in Proofs/Access.v. *)
 From Coq Require Import List NArith Bool.
 From AGH Require Import Base.Run Base.NetAddr Base.RuleEngine Model.Access Proofs.Access.
-From AGH Require Import Model.AccessPersist Proofs.AccessPersist.
+From AGH Require Import Model.AccessPersist Proofs.AccessPersist Proofs.AccessQuestion.
 From AGH Require Base.Dom Model.ClientID Proofs.ClientID.
 Import ListNotations.
 Local Open Scope N_scope.
@@ -477,3 +477,50 @@ Theorem C03_early_persist_refuted :
     probe ex_tls0 w1 x = BContinue None.
 Proof. exact early_persist_refuted. Qed.
 Print Assumptions C03_early_persist_refuted.
+
+(** * The question section: class and question count (round 7) *)
+
+(** HandleBefore reads the name and the type of the single question; the
+    verdict is the same for every class (IN, CH, HS, NONE, ANY, any value). *)
+Theorem C03_blocked_host_ignores_class : forall a p cid ip name qt c1 c2,
+  handle_before_msg a p cid ip [mkQ name qt c1] = handle_before_msg a p cid ip [mkQ name qt c2].
+Proof. exact blocked_host_ignores_class. Qed.
+Print Assumptions C03_blocked_host_ignores_class.
+
+(** A name on the blocked-hosts list, asked with any class: no reply over
+    UDP / DNSCrypt, REFUSED elsewhere ... *)
+Theorem C03_blocked_host_any_class : forall a p id ip name qt c,
+  is_blocked_host a (normalize_domain name) qt = true ->
+  handle_before_msg a p (Some id) ip [mkQ name qt c] = pre_blocked p.
+Proof. exact blocked_host_any_class. Qed.
+Print Assumptions C03_blocked_host_any_class.
+
+(** ... and whatever the handler is, it does not run. *)
+Theorem C03_blocked_host_any_class_not_served :
+  forall (S Req Resp : Type) (handler : S -> Req -> S * Resp) a p id ip name qt c cache st rq,
+  is_blocked_host a (normalize_domain name) qt = true ->
+  serve handler a p (Some id) ip (the_question [mkQ name qt c]) cache st rq =
+  (st, cache, expected_refusal p).
+Proof. exact blocked_host_any_class_not_served. Qed.
+Print Assumptions C03_blocked_host_any_class_not_served.
+
+(** The code tests the blocked hosts only for a message with exactly one
+    question: with none or several only the client decides. *)
+Theorem C03_question_count : forall a p cid ip qs,
+  length qs <> 1%nat ->
+  handle_before_msg a p cid ip qs = handle_before a p cid ip None.
+Proof. exact question_count. Qed.
+Print Assumptions C03_question_count.
+
+(** The variant that tests the blocked hosts for class IN only is refuted by
+    the query the default list exists for: CH TXT version.bind. *)
+Theorem C03_in_only_refuted :
+  let q := mkQ version_bind_fqdn 16 3 in
+  is_blocked_host default_access (normalize_domain (q_name q)) (q_type q) = true /\
+  handle_before default_access PTCP (Some []) (Some ex_ip) (the_question [q]) = BRefused /\
+  handle_before default_access PUDP (Some []) (Some ex_ip) (the_question [q]) = BDrop /\
+  handle_before default_access PTCP (Some []) (Some ex_ip) (the_question_in_only [q]) = BContinue None /\
+  handle_before default_access PTCP (Some []) (Some ex_ip)
+    (the_question_in_only [mkQ version_bind_fqdn 16 1]) = BRefused.
+Proof. exact in_only_refuted. Qed.
+Print Assumptions C03_in_only_refuted.
